@@ -201,3 +201,20 @@ Definition strict_decision (strict : bool) (sni : option bytes) (names : option 
     end
   end.
 
+(** ** the server name of a handshake.  rustls hands the name of the
+    ClientHello over lower-cased, with its trailing dot if it was written in
+    absolute form; [MutexCertificateResolver::resolve] and
+    [upgrade_handshake] (the strict-SNI snapshot) both drop one trailing dot *)
+Definition strip_dot (n : bytes) : bytes := if N.eqb (last n 0%N) DOT then removelast n else n.
+Definition conn_name (wire : bytes) : bytes := strip_dot (map lower wire).
+
+Section Handshake.
+  Variable re_match : bytes -> bytes -> bool.
+  (** the certificate served for a ClientHello (None = the default one) *)
+  Definition hello_served (r : resolver) (wire : bytes) : option bytes :=
+    option_map snd (resolve re_match r (conn_name wire)).
+  (** the names the session records for the strict-SNI check *)
+  Definition hello_snapshot (r : resolver) (wire : bytes) : option (list bytes) :=
+    names_for_sni re_match r (conn_name wire).
+End Handshake.
+
